@@ -11,3 +11,6 @@ chk("C18", "runtime monitor of algebraic laws: relation matrices of ==, =~, hash
 chk("C26", "recorded concurrent histories (client-boundary call/return stamps from one atomic counter) checked offline: porcupine v1.3.0 per-name register model + exact interval decision procedure, global injectivity; Go race detector on the same runs",
     "Held on every recorded history (2..128 goroutines, fresh and global tables, contended first interning observed); exploration of schedules, not enumeration.",
     "Trusted: porcupine; the Go scheduler's interleavings (GOMAXPROCS=16) plus microsecond sleeps are the only source of schedule diversity.")
+chk("C04", "online monitor over generated hostile inputs: token spans checked against a position model recomputed from byte offsets; colouring checked by an NFA that accepts exactly 'input with SGR sequences inserted'",
+    "Held (apart from listed known findings in error-token paths) on 300k (quick) / 6M (thorough) inputs covering random bytes, the whole token vocabulary, all lexing-mode openers, CRLF, invalid UTF-8, unterminated literals; exploration.",
+    "Trusted: the position convention (column = runes since last LF + 1; EndPos = rune containing the last byte). Only the first position discrepancy per input is judged (later ones are consequences).")
